@@ -30,7 +30,7 @@ ASSUMPTIONS = [
     "html.parser is not consulted for comments: CPython 3.12.1 closes comments at '--' S* '>' (pre-HTML5 behaviour)",
 ]
 MIN = {"quick": {"evaluations": 45000, "nontrivial": 43000, "outcomes": 4},
-       "thorough": {"evaluations": 400000, "nontrivial": 250000, "outcomes": 4}}
+       "thorough": {"evaluations": 280000, "nontrivial": 275000, "outcomes": 4}}
 
 TOKENS = ["<", ">", "&", '"', "'", "-", "--", "->", "-->", "!>", "--!>", "]", "]]", "]]>", "]>", "<!--", "<![CDATA[",
           "&amp;", "&lt;", "a", " ", "</div>", "<b>", "\n", "é", "\x0b"]
